@@ -141,3 +141,40 @@ func H_C16_group() {
 	p.ShutdownComplete.Wait()
 	verifrt.Assert(g.IsShutdown() && sub.IsShutdown() && !p.IsRunning(), "Group.Shutdown did not shut down the pools and groups below it")
 }
+
+// H_C16_group_tree: a three-level group tree; WaitChildren on the middle group returns only when the pool below
+// the leaf group has no pending tasks; an explicit cancel-on-shutdown=false option given to CreatePool is
+// honoured (queued tasks run on Shutdown).
+//
+//verif:h prop=C16 preempt=1/2 cover=mid-waited,ran-on-shutdown runs=30000000 timeout=280/3000 steps=400000
+func H_C16_group_tree() {
+	root := NewGroup("root")
+	mid := root.CreateGroup("mid")
+	leaf := mid.CreateGroup("leaf")
+	cancelOpt := verifrt.Choose("explicitCancelOff", 2) == 1
+	var p *WorkerPool
+	if cancelOpt {
+		p = leaf.CreatePool("p", WithWorkerCount(1), WithCancelPendingTasksOnShutdown(false))
+	} else {
+		p = leaf.CreatePool("p", WithWorkerCount(1))
+	}
+	var ran atomic.Int32
+	verifrt.MustFinish()
+	if verifrt.Choose("scenario", 2) == 0 {
+		p.Submit(func() { ran.Add(1) })
+		mid.WaitChildren()
+		verifrt.Assert(p.PendingTasksCounter.Get() == 0 && ran.Load() == 1, "WaitChildren on a middle group returned while a pool below it still had pending tasks")
+		verifrt.Cover("mid-waited")
+		root.WaitChildren()
+	} else if cancelOpt {
+		p.Submit(func() { ran.Add(1) })
+		p.Submit(func() { ran.Add(1) })
+		p.Shutdown()
+		p.ShutdownComplete.Wait()
+		p.PendingTasksCounter.WaitIsZero()
+		verifrt.Assert(ran.Load() == 2, "a pool created with cancel-on-shutdown switched off cancelled accepted tasks on Shutdown")
+		verifrt.Cover("ran-on-shutdown")
+	}
+	root.Shutdown()
+	p.ShutdownComplete.Wait()
+}
